@@ -403,6 +403,9 @@ def _readcmap(kv):
     return "/".join(out)
 
 
+_XROW_DIR = None
+
+
 def _xrow(kv):
     """write one row with the real writer, return its data line and what the real reader returns"""
     import os
@@ -426,7 +429,15 @@ def _xrow(kv):
     eid = int(kv["eid"])
     rows = [r] * eid  # the row of interest is the last one: XmapEntryID = eid
     res = AlignmentResults("r.cmap", "q.cmap", rows)
-    d = tempfile.mkdtemp(prefix="xrow")
+    # ONE output path per worker process, rewritten by every operation and read back with the same long-lived reader:
+    # what a reader returns must be what the file contains NOW (a user re-runs into the same -o path)
+    global _XROW_DIR
+    if _XROW_DIR is None or not os.path.isdir(_XROW_DIR):
+        import atexit
+        import shutil as _sh
+        _XROW_DIR = tempfile.mkdtemp(prefix="xrow", dir=os.environ.get("VERIF_TMP") or None)
+        atexit.register(_sh.rmtree, _XROW_DIR, True)
+    d = _XROW_DIR
     try:
         p = os.path.join(d, "o.xmap")
         with open(p, "w") as f:
@@ -450,8 +461,7 @@ def _xrow(kv):
                        num(y.queryLength), num(y.referenceLength),
                        ",".join(f"{p.reference.siteId}:{p.query.siteId}" for p in y.alignedPairs)])
     finally:
-        import shutil
-        shutil.rmtree(d, ignore_errors=True)
+        pass
     return line.replace("\t", "|") + " READ " + rd
 
 
